@@ -177,8 +177,13 @@ partial def expr (s : Sexp) : R Expr := do
     let lo ← optExpr (← need tag "Lower" fs)
     let hi ← optExpr (← need tag "Upper" fs)
     pure (.slice e lo hi)
-  | "pgsql.AnyExpression" => do let e ← expr (← need tag "Expression" fs); pure (.anyOf e)
-  | "pgsql.AllExpression" => do let e ← expr (← need tag "Expression" fs); pure (.allOf e)
+  -- `x op ANY ((subquery))` (PostgreSQL 9.23.4, subquery form) is read as `x op ANY (ARRAY(subquery))`: same rows, same NULL rules, same names
+  | "pgsql.AnyExpression" => do
+    let e ← expr (← need tag "Expression" fs)
+    pure (.anyOf (match e with | .subquery q => .arrayOf q | .paren (.subquery q) => .arrayOf q | x => x))
+  | "pgsql.AllExpression" => do
+    let e ← expr (← need tag "Expression" fs)
+    pure (.allOf (match e with | .subquery q => .arrayOf q | .paren (.subquery q) => .arrayOf q | x => x))
   | "pgsql.ExistsExpression" =>
     let neg ← asBool tag (← need tag "Negated" fs)
     let sub ← need tag "Subquery" fs
